@@ -133,15 +133,21 @@ PROPS = {
                      "rewrites R5 (map_err + ? -> match/return; iter().all -> verified helper all_zero)"],
     ),
     'C19': dict(
-        units_quick=['serdes', 'codec'], units_thorough=['serdes', 'codec', 'scalar'], timeout=600,
-        claim="PARTIAL (reading side, points): deserialize for G1, G2, G1Affine, G2Affine (real generic bodies over a byte-stream reader): on success "
+        units_quick=['serdes', 'serout', 'codec'], units_thorough=['serdes', 'serout', 'codec', 'encode', 'scalar'], timeout=600,
+        claim="reading side, points: deserialize for G1, G2, G1Affine, G2Affine (real generic bodies over a byte-stream reader): on success "
               "exactly 48/96 resp. 96/192 bytes are consumed and the value is what the checked decoder of unit codec returns for exactly those bytes; "
               "truncated input, a form flag contradicting the `compressed` argument and every encoding the checked decoder rejects give an error, never a "
-              "value; vec sizes and copy lengths are proved (no panic).",
-        not_covered=["serialize (all types), Fr and Fq12 (de)serialization, round trip - contracts not completed",
-                     "std::io::Read enters through the assumed contract of read_exact / read (D2)"],
-        assumptions=["D2 Read::read_exact either fills the buffer consuming exactly its length or fails; Vec::append; vec![0; n]", A['TOOLS'],
-                     "rewrites R5v (alloc::vec::from_elem -> contracted stub), R5c (as_mut().copy_from_slice -> verified helper copy_into)"],
+              "value; vec sizes and copy lengths are proved (no panic). Writing side (real generic bodies over a byte sink): G1Affine / G2Affine append exactly the point "
+              "encoding enc_* of C05 (48/96 resp. 96/192 bytes), G1 / G2 append the encoding of an affine representative of the same group element, Fr appends the 32 "
+              "big-endian bytes of the canonical value, Fq12 appends the twelve 48-byte big-endian coefficients in the order c0.c0.c0, c0.c0.c1, ..., c1.c2.c1 (576 bytes). "
+              "Reading side, scalars and target group: Fr / Fq12 deserialize consume exactly 32 / 576 bytes on success, return the value of the big-endian blocks, and return an error "
+              "for truncated input or any non-reduced block. Round-trip lemmas: reading what was written returns the value (points of the subgroup; identity -> canonical identity).",
+        not_covered=["std::io::Read / Write enter through the assumed contracts of read_exact / write_all (D2); a failing writer leaves the sink unspecified",
+                     "the round trip is stated as lemmas over the two contracts (decode(encode(x)) == x), not as one executable composition"],
+        assumptions=["D2 Read::read_exact either fills the buffer consuming exactly its length or fails; Write::write_all appends the whole buffer or fails; Vec::append; vec![0; n]",
+                     "D1 PrimeFieldRepr::write_be / read_be over streams: 8 bytes per limb, most significant first", "from_affine contracts are those proved in unit encode (C05); checked decoders those of unit codec (C04)", A['TOOLS'],
+                     "rewrites R5v (alloc::vec::from_elem -> contracted stub), R5c (as_mut().copy_from_slice -> verified helper copy_into), R5t (as_ref().to_vec() -> verified helper bytes_to_vec), "
+                     "R15 (`&mut reader` with reader: &mut R -> explicit reborrow, std's impl Read for &mut R)"],
     ),
     'C18': dict(
         units_quick=['order', 'recover'], units_thorough=['order', 'recover', 'tower'], timeout=600,
